@@ -453,8 +453,16 @@ func (p *notifier) notifyNow(event Event) error {
 	dbEvent.Latest = &now
 	if p.isPersistent() {
 		if err := p.db.WriteShelf(p.ctx, p.shelfName(), func(writer stoabs.Writer) error {
+			// the event may have been marked as finished (deleted) while the receiver was busy, it must not be re-created.
+			if _, err := writer.Get(stoabs.BytesKey(dbEvent.Hash.Slice())); err != nil {
+				return err
+			}
 			return p.writeEvent(writer, *dbEvent)
 		}); err != nil {
+			if errors.Is(err, stoabs.ErrKeyNotFound) {
+				// no longer exists so done, this stops any go routine
+				return nil
+			}
 			return retry.Unrecoverable(err)
 		}
 	}
